@@ -80,3 +80,24 @@ Example C03_nonvacuous :
     [cc [112;117;98;108;105;99;44;32;115;45;109;97;120;97;103;101;61;51;48;44;32;109;97;120;45;97;103;101;61;54;48]%N;
      (k_age, [49;48]%N)] = Some 20%Z.
 Proof. vm_compute. reflexivity. Qed.
+
+(** ** System level (entry-protocol model, Model/Sys.v) *)
+From Pike Require Import Model.Sys Proofs.SysLabel.
+
+(** The cache-status label is truthful, in every execution (any schedule,
+    outcome, fault, purge, restart; repaired or not): a request answered as a
+    hit never contacted the upstream; every other completed request — fetching,
+    hit-for-pass, and every non-GET/HEAD request (passed) — contacted it
+    exactly once. *)
+Theorem C03_label_truthful :
+  forall t0 hfp0 st0 lg ls s i l r a,
+    run (init t0 hfp0 st0 lg) ls = Some s -> nth_error (ts s) i = Some (PDone (Reply l r a)) ->
+    starts i (log s) = match l with LHit => 0 | _ => 1 end.
+Proof. exact label_truthful. Qed.
+Print Assumptions C03_label_truthful.
+
+(** a response that does not qualify is delivered only to the request that
+    fetched it: the completion marks the entry hit-for-pass and leaves the
+    stored response untouched (Properties/C07.v, C07_marks), and a hit only
+    ever serves a response installed by a cacheable completion
+    (Properties/C04.v, C04_hit_is_installed_and_fresh). *)
